@@ -250,6 +250,12 @@ def session_compare(case, impl, model):
         d = e._diff_stack(f'pred[{k}]', a, b)
         if d:
             return d
+        # theorem session_aligned: the shared columns (hidden tag, grouping descriptor) of the
+        # resampled prediction are those of the sample, in order (round 4)
+        for col in (TAG, case.get('pat_by') or 'index'):
+            if col in a['pat_desc'] and a['pat_desc'].get(col) != impl['stack']['pat_desc'].get(col):
+                return (f'column {col!r} of resampled prediction {k} {a["pat_desc"].get(col)} != that of '
+                        f'the sample {impl["stack"]["pat_desc"].get(col)}')
     return e._diff_stack('other_order', impl['other_order'], model['other_order'])
 
 
